@@ -453,6 +453,49 @@ theorem stepThread_pc {s t tid alt} : PcStep s t tid alt := by
   | 4 => exact pc_g4 hg | 5 => exact pc_g5 hg | 6 => exact pc_g6 hg | 7 => exact pc_g7 hg
   | n + 8 => omega
 
+/-- inside `_stop_enqueue` -/
+def tRegion : Pc → Bool
+  | .tAcq | .tR0 | .tR1 | .tR2 | .tR3 | .tR4 | .tS0 | .tS1 | .tS2 | .tS3 | .tS4 | .tRel => true
+  | _ => false
+
+/-- how a thread gets into / moves inside `_stop_enqueue`, and how a producer ends -/
+def EndStep (s : Shared) (t : Thread) (tid : Tid) (alt : Bool) : Prop :=
+  ∀ lbl s' t', stepThread s t tid alt = some (lbl, s', t') →
+    (tRegion t'.pc = true →
+      (tRegion t.pc = true ∧ t'.reraise = t.reraise) ∨ t.pc = .eNext ∨ (t.pc = .pRaiseT ∧ t'.reraise.isSome = true)) ∧
+    (t'.pc = .done → pcKind t.pc = some .producer →
+      (t.pc = .tRel ∧ t'.outcome = t.reraise.map Raise.err) ∨
+      (t.pc ≠ .tRel ∧ tRegion t.pc = false ∧ s'.enqueueDone = true ∧ t'.rets = t.rets ∧ t'.reraise = t.reraise))
+
+set_option hygiene false in
+macro "end_group" : tactic => `(tactic| (
+  intro lbl s' t' h
+  unfold stepThread at h
+  cases hpc : t.pc <;> (try (simp only [hpc, Pc.group] at hg; omega)) <;>
+    simp only [hpc] at h <;>
+    (try simp only [acquire, release, notify, waitPark, waitWake, goto, enqLoop, putLoop, batchLoop,
+      afterRaise, afterValue] at h) <;>
+    (repeat' split at h) <;>
+    (try simp only [Option.some.injEq, Prod.mk.injEq, reduceCtorEq] at h) <;>
+    (try (obtain ⟨-, rfl, rfl⟩ := h)) <;>
+    simp_all [pcKind, tRegion, Shared.setOwner]))
+
+theorem end_g0 {s t tid alt} (hg : t.pc.group = 0) : EndStep s t tid alt := by end_group
+theorem end_g1 {s t tid alt} (hg : t.pc.group = 1) : EndStep s t tid alt := by end_group
+theorem end_g2 {s t tid alt} (hg : t.pc.group = 2) : EndStep s t tid alt := by end_group
+theorem end_g3 {s t tid alt} (hg : t.pc.group = 3) : EndStep s t tid alt := by end_group
+theorem end_g4 {s t tid alt} (hg : t.pc.group = 4) : EndStep s t tid alt := by end_group
+theorem end_g5 {s t tid alt} (hg : t.pc.group = 5) : EndStep s t tid alt := by end_group
+theorem end_g6 {s t tid alt} (hg : t.pc.group = 6) : EndStep s t tid alt := by end_group
+theorem end_g7 {s t tid alt} (hg : t.pc.group = 7) : EndStep s t tid alt := by end_group
+
+theorem stepThread_end {s t tid alt} : EndStep s t tid alt := by
+  have h := Pc.group_lt t.pc
+  match hg : t.pc.group with
+  | 0 => exact end_g0 hg | 1 => exact end_g1 hg | 2 => exact end_g2 hg | 3 => exact end_g3 hg
+  | 4 => exact end_g4 hg | 5 => exact end_g5 hg | 6 => exact end_g6 hg | 7 => exact end_g7 hg
+  | n + 8 => omega
+
 theorem set_self_of_get {α} {l : List α} {i : Nat} {a : α} (h : l[i]? = some a) : l.set i a = l := by
   apply List.ext_getElem?
   intro j
